@@ -132,7 +132,7 @@ func main() {
 		defer func() { fmt.Println("append hook calls:", nApp) }()
 		t1 := time.Now()
 		obls, rets := a.DefaultEntry(fn)
-		fmt.Printf("analysed %s in %.2fs: %d obligations, %d return states\n", fn, time.Since(t1).Seconds(), len(obls), len(rets))
+		fmt.Printf("analysed %s in %.2fs: %d obligations, %d return states, %d steps, undecided=%v\n", fn, time.Since(t1).Seconds(), len(obls), len(rets), a.StepsUsed, a.Undecided)
 		for _, o := range obls {
 			st := "ok  "
 			if !o.OK {
